@@ -295,10 +295,10 @@ theorem paste_congr (lx : String → LexOne) {a a' b : Tok} (h : spell1 a = spel
     simp [hk, spell1]
   all_goals simp at hp
 
-theorem substItems_cons_ok {args : List MacroArg} {fa : String → List Tok} {inner : List Tok → Except Err (List Tok)}
+theorem substItems_cons_ok {args : List MacroArg} {vaP : Bool} {fa : String → List Tok} {inner : List Tok → Except Err (List Tok)}
     {p : Bool} {it : Item} {rest : List Item} {elems : List Elem}
-    (h : substItems args fa inner p (it :: rest) = .ok elems) (hv : ∀ c, it ≠ .vaopt c) :
-    ∃ e1 e2, elems = e1 ++ e2 ∧ substItems args fa inner (isOp it) rest = .ok e2 ∧
+    (h : substItems args vaP fa inner p (it :: rest) = .ok elems) (hv : ∀ c, it ≠ .vaopt c) :
+    ∃ e1 e2, elems = e1 ++ e2 ∧ substItems args vaP fa inner (isOp it) rest = .ok e2 ∧
       e1 = (match it with
         | .lit t => [Elem.tok t]
         | .op => [Elem.op]
@@ -502,14 +502,14 @@ theorem parse_head_isOp {isFn : Bool} {args : List MacroArg} {n : Nat} {rest : L
 
 /-- the item to the right of a `##`, under the region hypotheses: a parameter (raw argument or placemarker) or a
     plain token -/
-theorem rhs_step {isFn : Bool} {args0 : List MacroArg} {fa : String → List Tok} {inner : List Tok → Except Err (List Tok)}
+theorem rhs_step {isFn : Bool} {args0 : List MacroArg} {vaP : Bool} {fa : String → List Tok} {inner : List Tok → Except Err (List Tok)}
     {n : Nat} {hh rhs : Tok} {rest3 : List Tok} {items1 : List Item} {elems1 : List Elem}
     (hhh : hh.text = "##")
     (hb1 : badHead isFn args0 (hh :: rhs :: rest3) = false)
     (hb2 : anyBad isFn args0 (rhs :: rest3) = false)
     (hparse : parseBody isFn args0 (n + 1) (rhs :: rest3) = .ok items1)
-    (hsub : substItems args0 fa inner true items1 = .ok elems1) :
-    ∃ items3 e3, parseBody isFn args0 n rest3 = .ok items3 ∧ substItems args0 fa inner false items3 = .ok e3 ∧
+    (hsub : substItems args0 vaP fa inner true items1 = .ok elems1) :
+    ∃ items3 e3, parseBody isFn args0 n rest3 = .ok items3 ∧ substItems args0 vaP fa inner false items3 = .ok e3 ∧
       ((∃ a2, findArg args0 (some rhs) = some a2 ∧ ∃ W, spell W = spell a2.toks ∧ (W = [] ↔ a2.toks = []) ∧
           elems1 = rawOrPlacemarker W ++ e3)
        ∨ (findArg args0 (some rhs) = none ∧ elems1 = [Elem.tok rhs] ++ e3)) := by
@@ -553,9 +553,9 @@ theorem parse_op_cons {isFn : Bool} {args : List MacroArg} {k : Nat} {hh : Tok} 
   · exact absurd hhh h2
   · exact absurd hhh h2
 
-theorem substItems_op_cons {args : List MacroArg} {fa : String → List Tok} {inner : List Tok → Except Err (List Tok)}
-    {p : Bool} {items2 : List Item} {e : List Elem} (h : substItems args fa inner p (.op :: items2) = .ok e) :
-    ∃ e2, e = .op :: e2 ∧ substItems args fa inner true items2 = .ok e2 := by
+theorem substItems_op_cons {args : List MacroArg} {vaP : Bool} {fa : String → List Tok} {inner : List Tok → Except Err (List Tok)}
+    {p : Bool} {items2 : List Item} {e : List Elem} (h : substItems args vaP fa inner p (.op :: items2) = .ok e) :
+    ∃ e2, e = .op :: e2 ∧ substItems args vaP fa inner true items2 = .ok e2 := by
   obtain ⟨e1, e2, rfl, hs, he1⟩ := substItems_cons_ok h (by intro c h; cases h)
   simp only at he1
   subst he1
@@ -630,7 +630,7 @@ theorem model_gnu_none {args args0 : List MacroArg} (hcore : args.map core = arg
   · simp [hc]
 
 set_option maxHeartbeats 400000 in
-theorem subst_sim (lx : String → LexOne) (full : List Tok → List Tok) (isObj : Bool) (args0 : List MacroArg)
+theorem subst_sim (lx : String → LexOne) (full : List Tok → List Tok) (isObj : Bool) (args0 : List MacroArg) (vaP : Bool)
     (inner : List Tok → Except Err (List Tok)) :
     ∀ (fuel : Nat) (st : St) (args : List MacroArg) (body acc : List Tok) (done : List Elem) (pf : Nat)
       (items : List Item) (elems es : List Elem),
@@ -641,7 +641,7 @@ theorem subst_sim (lx : String → LexOne) (full : List Tok → List Tok) (isObj
       (PmTop done = true → textIs body.head? "##" = false) →
       spell acc = spell (dropPlacemarkers done) →
       parseBody (!isObj) args0 pf body = .ok items →
-      substItems args0 (fun a => full (argToks args0 a)) inner false items = .ok elems →
+      substItems args0 vaP (fun a => full (argToks args0 a)) inner false items = .ok elems →
       pasteAll lx elems done = .ok es →
       ∃ out args' st', substLoop lx (purePP full) isObj fuel st args body acc = .ok (out, args', st') ∧
         spell out = spell (dropPlacemarkers es) := by
@@ -1080,7 +1080,7 @@ theorem subst_spec_of_region (lx : String → LexOne) (full : List Tok → List 
         · rename_i es hpaste
           simp only [Except.ok.injEq] at hspec
           subst hspec
-          obtain ⟨out, args', st', hm, hs⟩ := subst_sim lx full false args _ (body.length + 1) {} args body [] []
+          obtain ⟨out, args', st', hm, hs⟩ := subst_sim lx full false args _ _ (body.length + 1) {} args body [] []
             (body.length + 1) items elems es (by omega) (by omega) rfl
             (fun a ha => Or.inl (hfresh a ha)) hext hpm hbs (by simp [PmTop]) (by simp [spell, dropPlacemarkers])
             hparse hsub hpaste
